@@ -297,7 +297,8 @@ def classify_kani(unit, rc, out, timed_out, wall):
             reason = "harness does not compile against the current tree (lost anchor / changed signature)"
         elif "memory" in out.lower() and ("exhaust" in out.lower() or "bad_alloc" in out.lower()):
             reason = "memory cap"
-        res["undecided"] = reason + "\n" + tail
+        errs = re.findall(r"^(error(?:\[E\d+\])?:[^\n]*\n(?:[ \t]+[^\n]*\n|\d* *\|[^\n]*\n)*)", out, re.M)
+        res["undecided"] = reason + "\n" + ("\n".join(errs[:8]) if errs else tail)
         return res
     obl = {}
     other_fail, other_undet, unwind_fail = [], 0, False
